@@ -25,6 +25,7 @@ type minimiser struct {
 	maxExec  int
 	deadline time.Time
 	research int // schedule seeds tried per candidate
+	retries  int // extra attempts per candidate (race reports are probabilistic, see DESIGN §4.6)
 }
 
 func cloneSpec(s *RunSpec) *RunSpec {
@@ -41,16 +42,18 @@ func (m *minimiser) budgetLeft() bool {
 // try executes spec and reports whether the target violation shows; on success it returns the
 // spec with the explicit decisions of that execution.
 func (m *minimiser) try(spec *RunSpec) (*RunSpec, *RunReport, *Outcome) {
-	if !m.budgetLeft() {
-		return nil, nil, nil
-	}
-	m.execs++
-	rep, oc := m.execute(spec)
-	for _, v := range rep.Violations {
-		if v.Sig == m.sig {
-			c := cloneSpec(spec)
-			c.Sim.Replay = oc.Recorded
-			return c, rep, oc
+	for attempt := 0; attempt <= m.retries; attempt++ {
+		if !m.budgetLeft() {
+			return nil, nil, nil
+		}
+		m.execs++
+		rep, oc := m.execute(spec)
+		for _, v := range rep.Violations {
+			if v.Sig == m.sig {
+				c := cloneSpec(spec)
+				c.Sim.Replay = oc.Recorded
+				return c, rep, oc
+			}
 		}
 	}
 	return nil, nil, nil
@@ -218,7 +221,7 @@ func (m *minimiser) run(spec *RunSpec) *RunSpec {
 		// 4. fonts that are no longer referenced cannot be dropped safely (indices); leave them
 	}
 	// 5. reduce the explicit decision list (ddmin on each kind), with its own budget
-	m.maxExec += 3000
+	m.maxExec += m.maxExec
 	m.deadline = m.deadline.Add(60 * time.Second)
 	cur = m.reduceDecisions(cur)
 	return cur
@@ -287,11 +290,21 @@ func (m *minimiser) reduceDecisions(cur *RunSpec) *RunSpec {
 }
 
 func minimise(t *testing.T, rf *ReplayFile, execute func(*RunSpec) (*RunReport, *Outcome), path string) {
-	if rf.Violation.Class == "race" || rf.Violation.Class == "nontermination" || rf.Violation.Class == "crash" {
-		fmt.Printf("MINIMISE skipped: class %s is minimised by the driver (needs a fresh process per candidate)\n", rf.Violation.Class)
+	if rf.Violation.Class == "nontermination" || rf.Violation.Class == "crash" {
+		fmt.Printf("MINIMISE skipped: class %s cannot be minimised in-process\n", rf.Violation.Class)
 		return
 	}
 	m := &minimiser{t: t, execute: execute, sig: rf.Violation.Sig, maxExec: 3000, deadline: time.Now().Add(90 * time.Second), research: 24}
+	if rf.Violation.Class == "race" {
+		// needs the -race binary with GORACE suppress_equal_stacks=0 suppress_equal_addresses=0 (the
+		// detector otherwise reports a racing pair once per process). Criterion: any report.
+		if !simrt.RaceBuild {
+			fmt.Printf("MINIMISE skipped: race class needs the race binary\n")
+			return
+		}
+		m.sig, m.maxExec, m.research, m.retries = "race", 900, 8, 1
+		m.deadline = time.Now().Add(150 * time.Second)
+	}
 	before := specSize(rf.Spec)
 	res := m.run(rf.Spec)
 	if res == nil {
@@ -299,11 +312,15 @@ func minimise(t *testing.T, rf *ReplayFile, execute func(*RunSpec) (*RunReport, 
 		return
 	}
 	// final confirmation and full record
-	rep, oc := execute(res)
+	var rep *RunReport
+	var oc *Outcome
 	var hit *Violation
-	for i := range rep.Violations {
-		if rep.Violations[i].Sig == rf.Violation.Sig {
-			hit = &rep.Violations[i]
+	for attempt := 0; attempt <= m.retries && hit == nil; attempt++ {
+		rep, oc = execute(res)
+		for i := range rep.Violations {
+			if rep.Violations[i].Sig == m.sig {
+				hit = &rep.Violations[i]
+			}
 		}
 	}
 	if hit == nil {
